@@ -297,6 +297,8 @@ SCENARIOS = [
      dict(active=["amr", "hydro", "part"], cpus=[1, 2], lmax=3, select=lambda kind: kind in ("mesh", "sink"))),
     ("a block with no selected cell; sorting requested", dict(ncells=lambda cpu, il: 0 if (cpu, il) == (2, 2) else 3, sortby={"mesh": "level", "absent": "x"}),
      dict(active=["amr", "hydro", "part"], cpus=[1, 2], lmax=3, select=lambda kind: {})),
+    ("an explicit EMPTY cpu_list (a list computed from a criterion that matched no file): no file is read", dict(cpu_list=[], hilbert_cpu_list=[2]),
+     dict(active=["amr", "hydro", "part"], cpus=[], lmax=3, select=lambda kind: {})),
     ("variable lists per group (one name that no reader provides)", dict(select={"mesh": ["density", "level", "no_such_variable"], "part": ["mass"]}),
      dict(active=["amr", "hydro", "part"], cpus=[1, 2], lmax=3, select=lambda kind: {"mesh": ["density", "level", "no_such_variable"], "part": ["mass"]}.get(kind, {}))),
 ]
